@@ -21,6 +21,7 @@ import json
 import logging
 import queue
 import re
+import tokenize
 import types
 import typing
 from ast import Assign, AsyncFunctionDef, ClassDef, FunctionDef, Lambda, Module
@@ -499,7 +500,9 @@ def read_module_ast(module_path: str) -> tuple[Module, str]:
     Returns:
         A tuple containing the AST and the source code.
     """
-    source_code = Path(module_path).read_text(encoding="utf-8")
+    # Honours a byte-order mark and an encoding declaration like the compiler does.
+    with tokenize.open(module_path) as source_file:
+        source_code = source_file.read()
     syntax_tree = ast.parse(source_code, filename=module_path)
     return syntax_tree, source_code
 
